@@ -129,6 +129,15 @@ def reserveGet (s : SlotBelt) (proc : Nat) : SlotBelt × Res :=
   let t : Tok := { id := s.nextTid, proc := proc }
   (({ s with nextTid := s.nextTid + 1, getQ := s.getQ ++ [t] }).trigGet, .tok t.id)
 
+/-- BeltStore.reserve_put(priority) of the slotted store: the queue is re-sorted (stably) by priority after the append -/
+def reservePutP (s : SlotBelt) (proc : Nat) (prio : Int) : SlotBelt × Res :=
+  let t : Tok := { id := s.nextTid, proc := proc, prio := prio }
+  (({ s with nextTid := s.nextTid + 1, putQ := stableSort (s.putQ ++ [t]) }).trigPut, .tok t.id)
+
+def reserveGetP (s : SlotBelt) (proc : Nat) (prio : Int) : SlotBelt × Res :=
+  let t : Tok := { id := s.nextTid, proc := proc, prio := prio }
+  (({ s with nextTid := s.nextTid + 1, getQ := stableSort (s.getQ ++ [t]) }).trigGet, .tok t.id)
+
 /-- ConveyorBelt.put → BeltStore.put → _do_put (+ the Initialize of the move process) → _trigger_reserve_get -/
 def put (s : SlotBelt) (proc tid : Nat) (x : Item) : SlotBelt × Res :=
   if s.putRes.isEmpty then (s, .err .runtime) else
@@ -224,6 +233,8 @@ def adv (s : SlotBelt) (dt : Nat) : SlotBelt :=
 inductive Op where
   | reservePut (proc : Nat)
   | reserveGet (proc : Nat)
+  | reservePutP (proc : Nat) (prio : Int)
+  | reserveGetP (proc : Nat) (prio : Int)
   | put (proc tid : Nat) (x : Item)
   | get (proc tid : Nat)
   | cancelPut (tid : Nat)
@@ -238,6 +249,8 @@ def step (s0 : SlotBelt) (op : Op) : SlotBelt × Res :=
   match op with
   | .reservePut p => s.reservePut p
   | .reserveGet p => s.reserveGet p
+  | .reservePutP p pr => s.reservePutP p pr
+  | .reserveGetP p pr => s.reserveGetP p pr
   | .put p t x => s.put p t x
   | .get p t => s.get p t
   | .cancelPut t => s.cancelPut t
